@@ -911,8 +911,11 @@ int main()
                         S.leave();
                     }
                 }
+                // lvs: StateSpace::getLongestValidSegmentLength() (what validSegmentCount divides by), for the model of
+                // the intermediate-states branch
                 std::cout << op << " ok svalid=" << startValid(s) << " gvalid=" << startValid(g)
-                          << " plive=" << (S.counter->live.load() - S.accounted()) << S.evs() << std::endl;
+                          << " plive=" << (S.counter->live.load() - S.accounted())
+                          << " lvs=" << vp::bits(S.space->getLongestValidSegmentLength()) << S.evs() << std::endl;
             }
             else if (op == "setpdg" && t.size() >= 3 + S.dim)
             {
